@@ -142,10 +142,11 @@ class ModbusTransactionManager(object):
                                 response_pdu_size = response_pdu_size * 2
                             if response_pdu_size:
                                 expected_response_length = self._calculate_response_length(response_pdu_size)
-                    if request.unit_id in self._no_response_devices:
-                        full = True
-                    else:
-                        full = False
+                    # also a unit that did not answer last time is read
+                    # header first: only the header tells an exception reply
+                    # (shorter than the predicted normal reply) from a
+                    # normal one
+                    full = False
                     c_str = str(self.client)
                     if "modbusudpclient" in c_str.lower().strip():
                         full = True
